@@ -57,6 +57,7 @@ inductive Clause
   | reachable_only | only_entitled | no_echo | no_duplicate | one_copy_per_endpoint | single_entry | only_master_crosses
   | logged_not_dropped | origin_zone_copied | master_by_names_and_connectedness | forwarded_when_reachable | same_master
   | replay_only_entitled | replay_global_own_zone_and_children | replay_no_object_own_zone_and_above
+  | replay_one_copy | replay_not_to_served | replay_reaches_missed | pair_one_copy
   deriving Repr, DecidableEq, Inhabited
 
 def Clause.name : Clause → String
@@ -69,6 +70,8 @@ def Clause.name : Clause → String
   | .replay_only_entitled => "replay_only_entitled"
   | .replay_global_own_zone_and_children => "replay_global_own_zone_and_children"
   | .replay_no_object_own_zone_and_above => "replay_no_object_own_zone_and_above"
+  | .replay_one_copy => "replay_one_copy" | .replay_not_to_served => "replay_not_to_served"
+  | .replay_reaches_missed => "replay_reaches_missed" | .pair_one_copy => "pair_one_copy"
 
 def nodupB : List Ep → Bool
   | [] => true
@@ -169,6 +172,76 @@ def specReplay (fuel : Nat) (T : Topo) (self : Ep) (hasObject : Bool) (objZone :
 /-- what is observable of the model's relay step on node `self` -/
 def Result.obs (T : Topo) (self : Ep) (r : Result) : Obs :=
   { sent := queued T self r, persist := r.persist, originZone := r.originZone, extraCopies := 0, master := getMaster T self }
+
+/-! ### "no endpoint processes the same event twice" / "records the event … instead of dropping it" across a reconnect -/
+
+/-- what was observed of one scenario "relay an event, then endpoint `target` reconnects and the log is replayed for it" -/
+structure LogObs where
+  /-- endpoints the event was queued for when it was relayed -/
+  sent : List Ep
+  persist : Bool
+  /-- copies of the event that the replay handed to `target` -/
+  copies : Nat
+  deriving Repr, DecidableEq, Inhabited
+
+/-- `target` is an endpoint this node's relay step is responsible for: a member of an entitled zone that is the node's own
+    zone, its parent or a (registered) direct child -/
+def concernedB (fuel : Nat) (T : Topo) (c : Case) (target : Ep) : Bool :=
+  target != c.self && (T.eps c.self (T.zoneOf target)).contains target &&
+  (candidateZones T c.self c.objZone).contains (T.zoneOf target) &&
+  directlyRelated T c.self (T.zoneOf target) && entitledB fuel T c.self c.objZone (T.zoneOf target)
+
+/-- The property's sentences about ONE event on the path "live routing, then replay after a reconnect".  The node relayed the
+    event at time `ts`; `reports` are ALL the log positions `target` ever reported to the node (before or after the event, in
+    any order); then `target`'s connection dropped, it connected again and the node replayed its log for it.
+    * the replay hands over one copy at most;
+    * "no endpoint processes the same event twice": if `target` was reachable (and not busy with a replay) when the event was
+      routed, it was served then - either by this node, or, when this node deliberately sent it nothing, on the path the
+      property prescribes (only the zone master forwards, a foreign zone is entered through a single endpoint, never back to
+      where the event came from).  In the second case the node has nothing in hand that shows `target` got the event from IT
+      (`target` never received anything newer from this node, so the positions it reports stay old), and replaying hands
+      `target` the event a second time - whatever positions `target` reported;
+    * "records the event in its replay log instead of dropping it": if the whole zone of `target` (or the zone peer
+      `target`) was unreachable when the event was routed, the event did not come from there, and `target` has not
+      confirmed a position at or beyond the event, the replay hands it over. -/
+def specLog (fuel : Nat) (T : Topo) (c : Case) (target : Ep) (reports : List Int) (ts : Int) (o : LogObs) : Option Clause :=
+  let tz := T.zoneOf target
+  if o.copies > 1 then some .replay_one_copy
+  else if concernedB fuel T c target && T.conn c.self target && !T.syncing c.self target && !o.sent.contains target && o.copies != 0
+    then some .replay_not_to_served
+  else if concernedB fuel T c target && c.log && unreachableB T c.self tz && c.origin.client != some target &&
+      c.origin.fromZone != some tz && reports.all (fun p => decide (p < ts)) && o.copies == 0 then some .replay_reaches_missed
+  else none
+
+/-- what is observable of the model's scenario -/
+def LogRun.obs (T : Topo) (self : Ep) (l : LogRun) : LogObs :=
+  { sent := queued T self l.result, persist := l.result.persist, copies := l.copies }
+
+/-- what was observed of the two members `a`, `b` of one zone handling one event: whom each queued it for when it was routed
+    and how many copies each replayed to `target` when it reconnected (`b` all empty when the event never reached it) -/
+structure PairObs where
+  sentA : List Ep
+  replayA : Nat
+  sentB : List Ep
+  replayB : Nat
+  deriving Repr, DecidableEq, Inhabited
+
+/-- copies of the event that `target` is handed by the two nodes together -/
+def PairObs.copies (o : PairObs) (target : Ep) : Nat := o.sentA.count target + o.replayA + o.sentB.count target + o.replayB
+
+/-- "No endpoint processes the same event twice: a foreign zone is entered through a single endpoint and only the current zone
+    master forwards across zone borders" - for the two members of a zone TOGETHER and across a reconnect: an endpoint of an
+    entitled parent / child zone is handed the event at most once by the two of them, live or replayed (the receiver keeps one
+    log position per sender, so a second copy from the other member is processed again). -/
+def specPair (fuel : Nat) (T : Topo) (a b : Ep) (oz : Zone) (target : Ep) (o : PairObs) : Option Clause :=
+  if T.zoneOf a == T.zoneOf b && a != b && T.zoneOf target != T.zoneOf a &&
+      concernedB fuel T ⟨a, Origin.loc, some oz, true⟩ target && decide (o.copies target > 1) then some .pair_one_copy
+  else none
+
+def PairRun.obs (T : Topo) (a b : Ep) (p : PairRun) : PairObs :=
+  { sentA := queued T a p.a.result, replayA := p.a.copies,
+    sentB := match p.b with | some l => queued T b l.result | none => [],
+    replayB := match p.b with | some l => l.copies | none => 0 }
 
 /-- Global zones stand beside the zone tree: a global zone is nobody's parent (`Zone::OnAllConfigLoaded` refuses
     that, zone.cpp:19-20) and has no parent itself (nothing refuses that; it is what "zone trees plus global zones"
